@@ -221,6 +221,9 @@ def run_one(case):
             else:
                 raise common.Broken(f"unknown block type {t}")
         ctl = edzed.ControlBlock('ctl')
+        # (the events are created with the circuit: names are resolved when the circuit is finalized)
+        ev_shutdown = edzed.Event.shutdown() if hasattr(edzed.Event, 'shutdown') else edzed.Event('ctl', 'shutdown')
+        ev_abort = edzed.Event('ctl', 'abort')
 
         allblocks = list(circuit.getblocks())
         obs['names'] = [b.name for b in allblocks]
@@ -262,14 +265,13 @@ def run_one(case):
             elif cause == 'sigterm':
                 os.kill(os.getpid(), signal.SIGTERM)
             elif cause == 'ctrl_shutdown':
-                ev = edzed.Event.shutdown() if hasattr(edzed.Event, 'shutdown') else edzed.Event('ctl', 'shutdown')
                 try:
-                    ev.send(ctl)
+                    ev_shutdown.send(ctl)
                 except Exception:
                     pass
             elif cause == 'ctrl_abort':
                 try:
-                    edzed.Event('ctl', 'abort').send(ctl, error=Boom('reported'))
+                    ev_abort.send(ctl, error=Boom('reported'))
                 except Exception:
                     pass
 
@@ -336,10 +338,27 @@ def run_one(case):
                 for _ in range(3):
                     await asyncio.sleep(0)
 
+        plain = bool(case.get('plain_run')) and cause in ('sigterm', 'shutdown', 'abort', 'ctrl_shutdown', 'ctrl_abort')
+        drv = None
         try:
-            await edzed.run(support(), support2(), catch_sigterm=True)
+            if plain:
+                # run() without supporting coroutines: the scenario is driven by a task of the harness,
+                # only the cause itself (a signal, a request, an error) ends the simulation
+                async def plain_driver():
+                    await support()
+                    await asyncio.sleep(3)
+                    if circuit.is_ready():
+                        obs['not_stopped'] = cause
+                        circuit.abort(asyncio.CancelledError('harness: the simulation was not stopped'))
+                drv = asyncio.create_task(plain_driver())
+                await edzed.run(catch_sigterm=True)
+            else:
+                await edzed.run(support(), support2(), catch_sigterm=True)
         except BaseException as err:      # noqa
             obs['run_exc'] = type(err).__name__ + ': ' + str(err)[:100]
+        if drv is not None:
+            drv.cancel()
+            await asyncio.gather(drv, return_exceptions=True)
         me = asyncio.current_task()
         for h in handles:
             h.cancel()
@@ -355,6 +374,8 @@ def run_one(case):
         await asyncio.sleep(0)
         leaked += [t for t in pend if t.cancelling() and not t.done()]
         obs['leaked_tasks'] = sorted(tname(t) for t in leaked)
+        if obs.get('not_stopped'):
+            obs['leaked_tasks'].append('edzed: simulation not stopped by ' + str(obs['not_stopped']))
         obs['leaked_timers'] = [repr(h)[:120] for h in loop.pending_timers()]
         obs['error'] = repr(circuit.error)[:120]
         started = {n for k, n in log if k == 'start'}
@@ -583,6 +604,11 @@ DIRECTED = [
     _d([dict(t='probe'), dict(_AP), dict(_AP), dict(_AP, init_ms=1)], 'shutdown', 'async_init'),
     _d([dict(t='probe'), dict(t='probe', fault='init_from_value')], None, 'running', wait_init=True, fault_ms=4),
     _d([dict(t='probe'), dict(t='oasync', mode='cancel'), dict(_AP, stop_ms=3)], 'sigterm', 'async_init'),
+    # edzed.run() without any supporting coroutine, ended by SIGTERM / a control event / abort()
+    dict(_d([dict(t='probe'), dict(t='oasync', mode='wait'), dict(_AP, stop_ms=3)], 'sigterm', 'running'), plain_run=True),
+    dict(_d([dict(t='probe'), dict(t='fsm'), dict(_AP, stop_ms=3)], 'sigterm', 'async_init'), plain_run=True),
+    dict(_d([dict(t='probe'), dict(t='mtask'), dict(t='ofunc')], 'ctrl_shutdown', 'running'), plain_run=True),
+    dict(_d([dict(t='probe'), dict(t='repeat'), dict(t='vpoll')], 'abort', 'running'), plain_run=True),
     # output runs that outlast the block's stop_timeout ('wait' and 'start': the listed finding
     # C08-outputasync-stop-timeout-not-enforced; 'cancel': bounded, nothing may be left behind)
     _d([dict(t='probe'), dict(t='oasync', mode='wait', slow=True)], 'shutdown', 'running'),
